@@ -134,6 +134,16 @@ def _split_parallel(fn: ast.AST) -> int:
         i = 0
         while i < len(body):
             s = body[i]
+            if isinstance(s, ast.Assign) and len(s.targets) > 1 and isinstance(s.value, ast.Constant) \
+                    and all(isinstance(t, (ast.Name, ast.Attribute)) and _is_pure(t) for t in s.targets):
+                # a = b = <constant>   ->   a = <constant>; b = <constant>
+                new = [ast.copy_location(ast.Assign(targets=[t], value=copy.deepcopy(s.value)), s) for t in s.targets]
+                for n_ in new:
+                    ast.fix_missing_locations(n_)
+                body[i:i + 1] = new
+                i += len(new)
+                k += 1
+                continue
             if isinstance(s, ast.Assign) and len(s.targets) == 1 and isinstance(s.targets[0], (ast.Tuple, ast.List)) \
                     and len(s.targets[0].elts) == 1 and isinstance(s.targets[0].elts[0], ast.Name) \
                     and isinstance(s.value, ast.Call) and isinstance(s.value.func, ast.Attribute) and s.value.func.attr == "nonzero" \
@@ -243,6 +253,109 @@ def _unroll(fn: ast.AST) -> int:
                     k += 1
                     continue
             i += 1
+    return k
+
+
+def _unroll_search(fn: ast.AST) -> int:
+    """T3b: a first-match search over a literal table
+           [T = ((a0, b0), (a1, b1), ..)]
+           for a, b in T:  if <test>: <S>; break   [else: <E>]
+    is the chain  if test0: S0  else: if test1: S1 else: .. E.  A table entry may be a parameterless lambda when its loop
+    variable is only ever called (`a()`): the call is the lambda's body, evaluated at the same moment"""
+    k = 0
+    for body in _bodies(fn):
+        i = 0
+        while i < len(body):
+            s = body[i]
+            i += 1
+            if not (isinstance(s, ast.For) and len(s.body) == 1 and isinstance(s.body[0], ast.If) and not s.body[0].orelse
+                    and s.body[0].body and isinstance(s.body[0].body[-1], ast.Break)):
+                continue
+            iff = s.body[0]
+            then = iff.body[:-1]
+            if _contains(then, (ast.Break, ast.Continue, ast.Return, ast.For, ast.While, ast.FunctionDef, ast.Lambda, ast.Try, ast.With)) or \
+                    _contains(s.orelse, (ast.Break, ast.Continue)) or _contains([ast.Expr(iff.test)], (ast.Lambda, ast.NamedExpr)):
+                continue
+            table, tdef = s.iter, None
+            if isinstance(table, ast.Name):
+                sts = _stores(fn).get(table.id, [])
+                lds = _loads(fn, table.id)
+                j = i - 2
+                if len(sts) == 1 and len(lds) == 1 and j >= 0 and isinstance(body[j], (ast.Assign, ast.AnnAssign)) and getattr(body[j], "value", None) is not None:
+                    tg = body[j].targets[0] if isinstance(body[j], ast.Assign) and len(body[j].targets) == 1 else getattr(body[j], "target", None)
+                    if isinstance(tg, ast.Name) and tg.id == table.id:
+                        table, tdef = body[j].value, body[j]
+            if not (isinstance(table, (ast.Tuple, ast.List)) and 1 <= len(table.elts) <= 8):
+                continue
+            tnames = [s.target.id] if isinstance(s.target, ast.Name) else \
+                [e.id for e in s.target.elts] if isinstance(s.target, ast.Tuple) and all(isinstance(e, ast.Name) for e in s.target.elts) else None
+            if tnames is None:
+                continue
+            # how each loop variable is used
+            called_only = {}
+            for v in tnames:
+                uses = [n for b_ in s.body + s.orelse for n in ast.walk(b_) if isinstance(n, ast.Name) and n.id == v]
+                calls = [c for b_ in s.body for c in ast.walk(b_) if isinstance(c, ast.Call) and isinstance(c.func, ast.Name) and c.func.id == v
+                         and not c.args and not c.keywords]
+                called_only[v] = bool(uses) and len(uses) == len(calls)
+            stored = {n.id for b_ in s.body for n in ast.walk(b_) if isinstance(n, ast.Name) and isinstance(n.ctx, ast.Store)}
+            later = {n.id for t in body[i:] for n in ast.walk(t) if isinstance(n, ast.Name)}
+            if (stored & set(tnames)) or (later & set(tnames)):
+                continue
+            items = []
+            ok = True
+            for it in table.elts:
+                parts = [it] if isinstance(s.target, ast.Name) else list(it.elts) if isinstance(it, (ast.Tuple, ast.List)) else None
+                if parts is None or len(parts) != len(tnames):
+                    ok = False
+                    break
+                m = {}
+                for v, p_ in zip(tnames, parts):
+                    if isinstance(p_, ast.Lambda):
+                        a_ = p_.args
+                        if not called_only[v] or a_.args or a_.posonlyargs or a_.kwonlyargs or a_.vararg or a_.kwarg or \
+                                any(isinstance(x, (ast.Lambda, ast.NamedExpr)) for x in ast.walk(p_.body)):
+                            ok = False
+                            break
+                        m[v] = ("thunk", p_.body)
+                    elif _is_pure(p_) and not isinstance(p_, ast.Starred) and not (_free(p_) & stored):
+                        m[v] = ("value", p_)
+                    else:
+                        ok = False
+                        break
+                if not ok:
+                    break
+                items.append(m)
+            if not ok:
+                continue
+
+            def inst(node, m):
+                node = copy.deepcopy(node)
+
+                class R(ast.NodeTransformer):
+                    def visit_Call(self, c):
+                        if isinstance(c.func, ast.Name) and c.func.id in m and m[c.func.id][0] == "thunk" and not c.args and not c.keywords:
+                            return copy.deepcopy(m[c.func.id][1])
+                        return self.generic_visit(c)
+
+                    def visit_Name(self, n):
+                        if isinstance(n.ctx, ast.Load) and n.id in m and m[n.id][0] == "value":
+                            return copy.deepcopy(m[n.id][1])
+                        return n
+                return R().visit(node)
+            tail = [copy.deepcopy(x) for x in s.orelse]
+            for m in reversed(items):
+                node = ast.If(test=inst(iff.test, m), body=[inst(x, m) for x in then] or [ast.Pass()], orelse=tail)
+                ast.copy_location(node, s)
+                tail = [node]
+            for x in tail:
+                ast.fix_missing_locations(x)
+            at = body.index(s)
+            body[at:at + 1] = tail
+            if tdef is not None:
+                body.remove(tdef)
+            k += 1
+            i = body.index(tail[0]) + 1 if tail else at
     return k
 
 
@@ -1328,6 +1441,34 @@ def _closure_roles(tree: ast.Module, modname: str) -> int:
                 for call in ast.walk(c):
                     if isinstance(call, ast.Call) and isinstance(call.func, ast.Name) and call.func.id in ("fun", "grad") and call.func.id in params:
                         want[id(c)] = f"{call.func.id}_wrapped"
+            # a parameterless closure held in some other attribute of self and writing the cached value / gradient
+            held = {s_.value.id for s_ in _own_nodes(init) if isinstance(s_, ast.Assign) and len(s_.targets) == 1 and isinstance(s_.targets[0], ast.Attribute)
+                    and isinstance(s_.targets[0].value, ast.Name) and s_.targets[0].value.id == "self" and isinstance(s_.value, ast.Name)}
+            for c in closures:
+                if id(c) in want or c.name not in held or c.args.args:
+                    continue
+                wr = {t.attr for s_ in ast.walk(c) if isinstance(s_, ast.Assign) for t in s_.targets
+                      if isinstance(t, ast.Attribute) and isinstance(t.value, ast.Name) and t.value.id == "self"}
+                if "f" in wr and "g" not in wr:
+                    want[id(c)] = "update_fun"
+                elif "g" in wr and "f" not in wr:
+                    want[id(c)] = "update_grad"
+            # closures of one name defined in several branches (one per mode) and used after the branches: rename them together
+            by_old: Dict[str, List[ast.FunctionDef]] = {}
+            for c in closures:
+                by_old.setdefault(c.name, []).append(c)
+            for old_, cs in by_old.items():
+                news = {want.get(id(c)) for c in cs}
+                if len(cs) > 1 and len(news) == 1 and None not in news:
+                    new = next(iter(news))
+                    if new != old_ and not any(isinstance(n, ast.Name) and n.id == new for n in ast.walk(init)) \
+                            and not any(isinstance(x, ast.FunctionDef) and x.name == new for x in ast.walk(init)):
+                        for c in cs:
+                            c.name = new
+                        for n in ast.walk(init):
+                            if isinstance(n, ast.Name) and n.id == old_:
+                                n.id = new
+                        k += 1
             for c in closures:
                 new = want.get(id(c))
                 if not new or new == c.name:
@@ -1622,6 +1763,7 @@ def normalise(tree: ast.Module, modname: str = "") -> Dict[str, int]:
     fns = [n for n in ast.walk(tree) if isinstance(n, (ast.FunctionDef, ast.AsyncFunctionDef))]
     for fn in fns:
         stats["T3 unroll"] += _unroll(fn)
+        stats["T3 unroll"] += _unroll_search(fn)
     stats["T22 list builder"] = sum(_list_builders(fn) for fn in fns)
     _AttrCalls().visit(tree)
     nv = _Numpy()
